@@ -28,6 +28,8 @@ def obligations(tier):
         obs.append(ch("dfxp_leaf_wrapped", "harness.C04_leaf", timeout=T, functions=L[:1], bounds="wrapped leaf, 1-2 + 1-2 code points, indentation 0-2"))
         obs.append(ch("sami_leaf_wrapped", "harness.C04_leaf", timeout=T, functions=L[1:], bounds="wrapped leaf, 1-2 + 1-2 code points, indentation 0-2"))
     S = ("SAMIParser.handle_entityref", "handle_charref", "handle_data")
+    obs.append(ch("wrap_next_to_inline", "harness.C04_leaf", timeout=T, functions=("DFXPReader._convert_tag_to_node", "SAMIReader._translate_tag"), known="C04-wrap-next-to-inline",
+                  bounds="'<i>a</i>' + newline + indentation + 'b c' and the mirrored order, DFXP and SAMI, through the real readers"))
     obs.append(ch("sami_entityref", "harness.C04_sami", timeout=T, functions=S, bounds="8 named references (amp lt gt quot apos nbsp copy eacute) x following data of 0-3 arbitrary code points"))
     obs.append(ch("sami_charref_dec", "harness.C04_sami", timeout=T, functions=S, bounds="all decimal references 32..999 x following data of 0-3 code points"))
     obs.append(ch("sami_charref_hex", "harness.C04_sami", timeout=T, functions=S, bounds="6 hex references (& < > A e-acute \") x following data of 0-3 code points"))
